@@ -213,14 +213,34 @@ func init() {
 				continue
 			}
 			key := k.key(fs.Fn, "LockedBlock = nil")
-			// find a polka atom dominating the store
-			var pol, R string
-			for _, a := range w.atomsAt(fs.Store) {
-				if m := regexp.MustCompile(`^true\((.*\.Prevotes\((.*)\)\.TwoThirdsMajority\(\))#1\)$`).FindStringSubmatch(a); m != nil {
-					pol, R = q(m[1]), m[2]
-				}
+			// find a polka atom dominating the store — in the storing function or, when the unlock was
+			// extracted into a helper, at the helper's call sites
+			polkaRe := regexp.MustCompile(`^true\((.*\.Prevotes\((.*)\)\.TwoThirdsMajority\(\))#1\)$`)
+			type usite struct {
+				fn *ssa.Function
+				at ssa.Instruction
 			}
-			if !c.Check(pol != "", key+" <= polka", w.ipos(fs.Store), "a +2/3 prevote majority dominates the unlock", "unlock is not dominated by any TwoThirdsMajority() of prevotes") {
+			var sites []usite
+			var lift func(fn *ssa.Function, at ssa.Instruction, d int) bool
+			lift = func(fn *ssa.Function, at ssa.Instruction, d int) bool {
+				for _, a := range w.atomsAt(at) {
+					if polkaRe.MatchString(a) {
+						sites = append(sites, usite{fn, at})
+						return true
+					}
+				}
+				callers := w.callersOf(fn)
+				if d <= 0 || len(callers) == 0 {
+					return false
+				}
+				for _, cs := range callers {
+					if !lift(cs.Parent(), cs, d-1) {
+						return false
+					}
+				}
+				return true
+			}
+			if !c.Check(lift(fs.Fn, fs.Store, 2) && len(sites) > 0, key+" <= polka", w.ipos(fs.Store), "a +2/3 prevote majority dominates the unlock", "unlock is not dominated by any TwoThirdsMajority() of prevotes") {
 				continue
 			}
 			// same-block stores reset round and parts
@@ -237,26 +257,34 @@ func init() {
 				}
 			}
 			c.Check(rs && ps, key+" resets LockedRound and parts", w.ipos(fs.Store), "LockedRound=-1 and LockedBlockParts=nil with it", "LockedRound/LockedBlockParts are not reset together with LockedBlock")
-			isParamRound := false
-			for _, p := range outermost(fs.Fn).Params {
-				if canonParamName(p) == R {
-					isParamRound = true
+			for _, us := range sites {
+				var pol, R string
+				for _, a := range w.atomsAt(us.at) {
+					if m := polkaRe.FindStringSubmatch(a); m != nil {
+						pol, R = q(m[1]), m[2]
+					}
 				}
-			}
-			if isParamRound {
-				// step path: round is the entered round; unlock on nil polka or on a polka for a block that is not the lock
-				c.guards(fs.Fn, fs.Store, key, 1, guardCmp("round is not in the past", q(R), ">=", `.*\.Round`))
-				c.anyGuards(fs.Fn, fs.Store, key, "polka is nil, or for a block that is neither the lock nor (valid) proposal", 0,
-					[]Guard{guardCmp("nilpolka", `len\(`+pol+`#0\.Hash\)`, "==", "0")},
-					[]Guard{guardRe("notlock", `^false\(.*\.LockedBlock\.HashesTo\(`+pol+`#0\.Hash\)\)$`), guardRe("notprop", `^false\(.*\.ProposalBlock\.HashesTo\(`+pol+`#0\.Hash\)\)$`)})
-			} else {
-				// vote path: polka from an arbitrary round R of a received vote
-				c.guards(fs.Fn, fs.Store, key, 0,
-					guardCmp("polka round is after the lock round", `.*\.LockedRound`, "<", q(R)),
-					guardCmp("polka round is not in the future", q(R), "<=", `.*\.Round`),
-					guardRe("polka is not for the locked block", `^false\(.*\.LockedBlock\.HashesTo\(`+pol+`#0\.Hash\)\)$`),
-					guardRe("locked", `^nonnil\(.*\.LockedBlock\)$`),
-				)
+				isParamRound := false
+				for _, p := range outermost(us.fn).Params {
+					if canonParamName(p) == R {
+						isParamRound = true
+					}
+				}
+				if isParamRound {
+					// step path: round is the entered round; unlock on nil polka or on a polka for a block that is not the lock
+					c.guards(us.fn, us.at, key, 1, guardCmp("round is not in the past", q(R), ">=", `.*\.Round`))
+					c.anyGuards(us.fn, us.at, key, "polka is nil, or for a block that is neither the lock nor (valid) proposal", 0,
+						[]Guard{guardCmp("nilpolka", `len\(`+pol+`#0\.Hash\)`, "==", "0")},
+						[]Guard{guardRe("notlock", `^false\(.*\.LockedBlock\.HashesTo\(`+pol+`#0\.Hash\)\)$`), guardRe("notprop", `^false\(.*\.ProposalBlock\.HashesTo\(`+pol+`#0\.Hash\)\)$`)})
+				} else {
+					// vote path: polka from an arbitrary round R of a received vote
+					c.guards(us.fn, us.at, key, 0,
+						guardCmp("polka round is after the lock round", `.*\.LockedRound`, "<", q(R)),
+						guardCmp("polka round is not in the future", q(R), "<=", `.*\.Round`),
+						guardRe("polka is not for the locked block", `^false\(.*\.LockedBlock\.HashesTo\(`+pol+`#0\.Hash\)\)$`),
+						guardRe("locked", `^nonnil\(.*\.LockedBlock\)$`),
+					)
+				}
 			}
 		}
 	})
